@@ -194,6 +194,10 @@ class FilesystemIsolation(ContextDecorator):
             # first arg is a path-like or file descriptor
             # second positional arg may be mode, or kwargs['mode']
             file_arg = args[0] if args else kwargs.get("file")
+            if isinstance(file_arg, int):
+                # A file descriptor is not a path: nothing to guard and nothing to record
+                # (``str(fd)`` would name an unrelated file in the working directory).
+                return original_func(*args, **kwargs)
             mode = kwargs.get("mode", args[1] if len(args) > 1 else "r")
             if isinstance(mode, str) and self._is_write_mode(mode) and self._is_foreign(file_arg):
                 raise PermissionError(
